@@ -66,11 +66,43 @@ def reset1_rule(prog, rep, rule="RESET-1"):
     rp = vcls.lookup_method("report")
     rep.check(any(call_name(c) == "%s.run_validation" % rp.params[0] for c in calls_in(rp.node)), rule,
               "report() re-validates through run_validation", "ok", "report() does not go through run_validation", rp.where)
+    # ... on every path: a report of an object that was edited since the last run is the report of its current state
+    from ..logic import reach_avoiding
+    pg = build_cfg(rp)
+    runs = set(n.id for n in pg.nodes if any(call_name(c) == "%s.run_validation" % rp.params[0] for r in n.expr_roots() for c in calls_in(r)))
+    skipping = any(reach_avoiding(pg, pg.entry, p, lambda src, kind, dst: dst.id in runs, skip_kinds=("exc",)) for k0, p in pg.exit.pred if k0 != "exc")
+    rep.check(not skipping, rule, "report() re-validates on every path", "ok",
+              "report() can return without having called run_validation: the text describes the state at an earlier validation", rp.where,
+              witness="validate an object with an issue, repair it, call report() again: the issue is still reported")
+    # every issue a rule yields is recorded: error() appends its argument on every path, __init__ gives every Validation its own list
+    er = vcls.lookup_method("error")
+    if er is None:
+        raise AnalysisError("Validation.error vanished")
+    eg = build_cfg(er)
+    me = er.params[0]
+    apps = set(n.id for n in eg.nodes for r in n.expr_roots() for c in calls_in(r)
+               if call_name(c) == "%s.errors.append" % me and len(c.args) == 1 and len(er.params) > 1 and unparse(c.args[0]) == er.params[1])
+    dropping = not apps or any(reach_avoiding(eg, eg.entry, p, lambda src, kind, dst: dst.id in apps, skip_kinds=("exc",)) for k0, p in eg.exit.pred if k0 != "exc")
+    rep.check(not dropping, rule, "error() records every issue it is given", "self.errors.append(<issue>) on every path",
+              "Validation.error can return without appending the issue (a filter on what was recorded before): an issue of one object hides "
+              "the same issue of another", er.where, witness="two look-alike Sections that both violate a cardinality: one warning")
+    init = vcls.lookup_method("__init__")
+    ig = build_cfg(init)
+    fresh = set(n.id for n in ig.nodes if n.kind == "stmt" and isinstance(n.ast, ast.Assign)
+                and any(unparse(t) == "%s.errors" % init.params[0] for t in n.ast.targets)
+                and ((isinstance(n.ast.value, ast.List) and not n.ast.value.elts) or (isinstance(n.ast.value, ast.Call) and call_name(n.ast.value) == "list" and not n.ast.value.args)))
+    runs_i = set(n.id for n in ig.nodes if any(call_name(c) == "%s.run_validation" % init.params[0] for r in n.expr_roots() for c in calls_in(r)))
+    shared = any(reach_avoiding(ig, ig.entry, p, lambda src, kind, dst: dst.id in fresh or dst.id in runs_i, skip_kinds=("exc",))
+                 for k0, p in ig.exit.pred if k0 != "exc")
+    rep.check(not shared, rule, "every Validation owns its issue list", "self.errors = [] (or a run) on every path of __init__",
+              "Validation.__init__ can finish without binding self.errors: the instance appends to a list shared through the class", init.where,
+              witness="Validation(a, validate=False).validate(a); Validation(b, validate=False).errors already holds a's issues")
 
 
 def run(prog, rep):
     rep.decided = DECIDED
     rep.not_decided = NOT_DECIDED
+    table_readers_rule(prog, rep, "OWN-T")
     an = analysis.get(prog)
     S = an.s
     an.note_coverage(rep)
@@ -328,3 +360,26 @@ def run(prog, rep):
     rep.note("register_custom_handler on a Validation built without reset=True mutates the class registry (public API misuse, "
              "outside the statement); the package itself never does so (TS-1)")
     rep.assume("call resolution of odmlsa.kinds (class hierarchy + kinds); unresolved calls are listed in the evidence")
+
+
+def table_readers_rule(prog, rep, rule="OWN-T"):
+    """the shared table of loaded terminologies is consulted through load() only"""
+    rep.rule(rule, "no function outside odml/terminology.py reads the table object `terminologies` itself (terminology.terminologies[...], .get(...), "
+                   "`in`): the rules obtain a terminology with terminology.load(url), which fetches what is not cached yet. A direct look into the "
+                   "table answers according to what other code happened to load before - the same document validates differently later")
+    n = 0
+    for f in prog.all_functions():
+        if f.module.name == "odml.terminology":
+            continue
+        n += 1
+        imported = set(k for k, ent in f.module.imports.items() if ent[0] == "from" and ent[1] == "odml.terminology" and ent[2] == "terminologies")
+        for y in walk_no_nested(f.node):
+            hit = (isinstance(y, ast.Attribute) and y.attr == "terminologies" and isinstance(y.value, ast.Name)
+                   and f.module.imports.get(y.value.id, ("", ""))[-1] in ("odml.terminology", "terminology")) or \
+                  (isinstance(y, ast.Attribute) and y.attr == "terminologies" and unparse(y.value).endswith("terminology")) or \
+                  (isinstance(y, ast.Name) and y.id in imported)
+            if hit:
+                rep.fail(rule, "%s|terminologies" % f.short, "%s reads the table of loaded terminologies directly (`%s`) instead of asking "
+                         "terminology.load(url): the answer depends on what was loaded earlier in the process" % (f.short, unparse(y)), where(f, y),
+                         witness="validate with section_repository_present before and after some other code loaded the repository: different reports")
+    rep.ok(rule, "the terminology table is read through load() only", "%d functions outside odml.terminology scanned" % n, "")
